@@ -190,6 +190,25 @@ def check_case(case, ctx):
                 continue
             ctx.check(same_number(U[n], wu) and same_number(V[n], wv), "C19.quiver_components",
                       lambda: f"arrow {n} has components ({U[n]}, {V[n]}); cell {n} stores ({wu}, {wv})")
+        if len(gd) == 2:
+            # v handed over with its dimensions in the other order: refuse, or pair correctly
+            flipped = ds[v["name"]].transpose(*reversed(ds[v["name"]].dims))
+            ctx.at("C19.quiver_components")
+            try:
+                other = conv.make_quiver(axes, ds[u["name"]], flipped)
+            except ValueError:
+                ctx.label("quiver:mixed_order_refused")
+            else:
+                U2 = numpy.ma.filled(numpy.ma.asarray(other.U, dtype=float), numpy.nan)
+                V2 = numpy.ma.filled(numpy.ma.asarray(other.V, dtype=float), numpy.nan)
+                hidden = numpy.ma.getmaskarray(numpy.ma.masked_array(U2, mask=getattr(other, "Umask", numpy.ma.nomask)))
+                for n in range(min(n_faces, other.N)):
+                    wu, wv = stored(u, n), stored(v, n)
+                    if hidden[n] or any(isinstance(w, float) and math.isnan(w) for w in (wu, wv)):
+                        continue
+                    ctx.check(same_number(U2[n], wu) and same_number(V2[n], wv), "C19.quiver_components",
+                              lambda: f"u{tuple(ds[u['name']].dims)} with v{tuple(flipped.dims)}: arrow {n} has "
+                              f"({U2[n]}, {V2[n]}); cell {n} stores ({wu}, {wv})")
         ctx.raises("C19.quiver_refusals",
                    lambda: conv.make_quiver(axes, extra_var["name"], extra_var["name"]),
                    "vector components with a leftover dimension", exc_types=ValueError)
